@@ -1,4 +1,5 @@
 import EmsModel.Core.CacheKeyDataset
+import EmsModel.Core.CacheKeyMarshal
 import EmsModel.Core.Proto
 /-! Line-protocol driver for C16 (cache key byte stream).
 
@@ -12,6 +13,9 @@ Strings travel as the hex of their UTF-8 (`-` = empty), byte strings as hex (`-`
 `pos <spec> <vars> <i> <k>`                → absolute stream position of data byte k of inventory variable i | `ERR`
 `diff <spec> <module> <class> <version> <vars> <spec'> <module'> <class'> <version'> <vars'>`
                                            → `same` | `pos:<first differing position>` | `len:<a>,<b>` (one stream is a prefix of the other) | `ERR`
+
+`marshal <0|1> <items>`                    → hex of the F10 quirk model `marshalStrDict` (dict shared?; items `,`-separated
+                                             `ktext/i/s/id~vtext/i/s/id`, i = interned, s = shared, 0|1) | `UNSUPPORTED` (not short ASCII)
 
 spec:  `cf:<lat|->:<lon|->`  `shoc_simple`  `arakawa:<kind>=<lat>/<lon>,…`  `ugrid:<role,role|->`
 vars:  `;`-separated, each `name:dims:c|d:valuedtype:encdtype|-:shape:data|*:count:blob:attrs`
@@ -120,6 +124,28 @@ def firstDiff : Bytes → Bytes → Nat → String
   | _ :: _, [], _ => "len"
   | a :: as, b :: bs, k => if a == b then firstDiff as bs (k + 1) else s!"pos:{k}"
 
+def parsePyStr? (s : String) : Option PyStr :=
+  match s.splitOn "/" with
+  | [t, i, sh, id] =>
+    match parseStr? t, parseNat? id with
+    | some t, some id =>
+      if (i == "0" || i == "1") && (sh == "0" || sh == "1") then
+        some { text := t, interned := i == "1", shared := sh == "1", ident := id }
+      else none
+    | _, _ => none
+  | _ => none
+
+def parseItems? (s : String) : Option (List (PyStr × PyStr)) :=
+  if s == "-" then some [] else
+    allSome ((s.splitOn ",").map fun kv =>
+      match kv.splitOn "~" with
+      | [k, v] => match parsePyStr? k, parsePyStr? v with
+        | some k, some v => some (k, v)
+        | _, _ => none
+      | _ => none)
+
+def shortAscii (s : PyStr) : Bool := s.text.length < 256 && s.text.toList.all (·.toNat < 128)
+
 def step (line : String) : String :=
   match words line with
   | ["int", v] =>
@@ -140,6 +166,13 @@ def step (line : String) : String :=
       | some b => showHex b
       | none => "ERR"
     | _, _ => "BAD"
+  | ["marshal", sh, items] =>
+    match parseItems? items with
+    | some items =>
+      if !(sh == "0" || sh == "1") then "BAD"
+      else if items.all (fun (k, v) => shortAscii k && shortAscii v) then showHex (marshalStrDict (sh == "1") items)
+      else "UNSUPPORTED"
+    | none => "BAD"
   | ["inv", spec, vars] =>
     match parseSpec? spec, parseVars? vars with
     | some spec, some vars =>
